@@ -48,6 +48,8 @@ import DimodModel.Npy
     zipread <bytes> <inflate oracle>                               -> none | members   (zipOpen over the byte-level directory/member reader, real CRC-32)
     zipreadall <bytes> <inflate oracle>                            -> prefix lengths at which the archive opens | -
     ziptiledall <start> <bytes> <inflate oracle>                   -> prefix lengths at which the tiled opener (_open_archive + all members) succeeds | -
+    ziplocalok <entries>                                           -> per entry 1 | 0: does the local header record the size of the stored bytes (side condition `ZEntry.LocalOK`)
+    ziptiledstrictall <start> <bytes> <inflate oracle>             -> the same for the round-8 opener (local headers must agree with the directory)
     npyhdr <descr> <shape>                                         -> hex of the .npy header (magic, version, length, padded dictionary)
     npyparse <bytes>                                               -> none | descr:shape:dataHex
     npyparseall <bytes>                                            -> prefix lengths at which the member parses, as first..last ranges | -
@@ -529,6 +531,12 @@ def handle (toks : List String) : String :=
     let b := unhex bytes
     let inf := parseInflate orc
     rangesOf ((List.range (b.length + 1)).filter fun j => (openTiled crc32 inf start.toNat! (b.take j)).isSome)
+  | ["ziplocalok", entries] =>
+    String.intercalate "," (((splitList entries ";").map parseZEntry).map fun z => if localSize (localFixed z) z.lextra = z.stored.length then "1" else "0")
+  | ["ziptiledstrictall", start, bytes, orc] =>
+    let b := unhex bytes
+    let inf := parseInflate orc
+    rangesOf ((List.range (b.length + 1)).filter fun j => (openTiledStrict crc32 inf start.toNat! (b.take j)).isSome)
   | _ => "bad-op"
 
 def main : IO Unit := do
